@@ -1,7 +1,7 @@
 """C24 Call-sequence queries return exactly the calls on source-to-target paths.
 
  R1 graph construction: one node per key of `subs`; an edge for every Jmp::Call whose target
-    is a key of `subs` (loops over all subs x blocks x jumps, no early exit / extra filter);
+    is a key of `subs` (iteration over all subs x blocks x jumps, no early exit / extra filter);
     edges are added with add_edge (two calls to the same callee are two edges)
  R2 traversals: a traversal never follows neighbours in one direction and collects edges in
     the other (contradiction rule); a traversal is either forward from the source or
@@ -11,9 +11,17 @@
     from the source (edge collected as outgoing edge of a forward-visited node, or tested for
     membership in such a set) AND its callee reaching the target (incoming edge of a
     backward-visited node / membership); the call's tid is reported
+
+The rules are stated over *traversal instances*: a worklist loop together with the constant values of the enclosing
+function's parameters. A loop written twice in the query function gives two instances; one loop in a helper that is called
+with Direction::Outgoing and Direction::Incoming gives two instances of the same loop, each specialised (lib/peval) for its
+direction. Iteration contexts (for loops, closures handed to iterator adaptors) are treated alike.
 """
 from .lib import sym as S
 from .lib import thir as T
+from .lib import peval as PE
+from .lib import bindsrc as B
+from .lib import slots as SL
 from .lib.sym import fmt
 
 
@@ -21,151 +29,310 @@ def is_call(t, name=None):
     return isinstance(t, tuple) and t and t[0] == "call" and (name is None or t[1] == name or (isinstance(name, (set, tuple, frozenset)) and t[1] in name))
 
 
+RESTRICT = ("filter", "take", "skip", "step_by", "filter_map", "take_while", "skip_while", "map_while", "nth", "last", "find", "find_map", "position", "peekable")
+CLOSURE_ITER = ("map", "for_each", "flat_map", "inspect", "fold", "try_for_each", "for_each_mut", "filter", "filter_map", "flatten", "any", "all", "find", "take_while", "skip_while")
+
+
 def run(run):
     F = run.facts()
     run.explanation = (
-        "Static construction/direction analysis of analysis::callgraph: loop shape and edge condition of get_program_callgraph; for "
-        "each of the two worklist traversals the Direction constants passed to neighbors_directed and edges_directed (resolved enum "
-        "variants) are compared with each other and with the start node; the result expression is normalised to (iterated set, "
-        "membership test, mapping). Decides construction and direction agreement, not exactness on a given graph.")
+        "Static construction/direction analysis of analysis::callgraph: the iteration context (for loops and closures of iterator "
+        "chains, resolved through local bindings) and the path condition of the add_node / add_edge sites of get_program_callgraph; "
+        "for each worklist-traversal instance (loop + constant parameters of the enclosing helper, specialised per call site) the "
+        "Direction constants used for following neighbours and for collecting edges are compared with each other and with the start "
+        "node; the result expression is normalised to (iterated set, membership test, mapping). Decides construction and direction "
+        "agreement, not exactness on a given graph.")
     run.rule("R1", "call graph has every function as node and every direct internal call as its own edge")
     run.rule("R2", "each traversal follows and collects in one direction; forward from the source, backward from the target; expand on first visit")
     run.rule("R3", "result = edges in both sets, mapped to the tid of the call")
 
+    def owner_of(fn, node):
+        """the body (fn or one of its closures) that contains node"""
+        for b in [fn] + F.closures(fn):
+            if any(x is node for x in T.walk(b["body"])):
+                return b
+        return None
+
+    def iter_contexts(fn, node):
+        """iterable expressions of all iterations `node` runs in: enclosing for loops and, across closure boundaries, the
+        receiver of the iterator adaptor the closure is handed to"""
+        out = []
+        b = owner_of(fn, node)
+        target = node
+        while b is not None:
+            for (n_, pat, it, body) in T.for_loops(b["body"]):
+                if any(x is target for x in T.walk(body)):
+                    out.append(it)
+            if b is fn or b.get("dk") != "Closure":
+                break
+            parent = F.by_path.get(b.get("parent"))
+            if parent is None:
+                break
+            taker = None
+            for x in T.walk(parent["body"]):
+                if x.get("k") == "Call" and any(T.peel(a).get("k") == "Closure" and T.peel(a).get("d") == b["path"] for a in x.get("a", [])):
+                    taker = x
+            if taker is None:
+                break
+            if taker.get("n") in CLOSURE_ITER and taker.get("a"):
+                out.append(taker["a"][0])
+            target = taker
+            b = parent
+        return out
+
+    def fields_and_adaptors(fn, exprs):
+        roots = B.bodies(F, fn)
+        fields, adapt = set(), []
+        for e in exprs:
+            for src, how in B.sources(F, roots, e):
+                for x in B.walk_with_closures(F, src):
+                    if x.get("k") == "Field" and x.get("fn"):
+                        fields.add(x["fn"])
+                    if T.is_call(x, RESTRICT):
+                        adapt.append(x["n"])
+        return fields, adapt
+
+    def is_desugar_cond(cd):
+        if cd[0] != "arm":
+            return False
+        m = cd[1]
+        if m.get("ms", "").startswith("ForLoopDesugar"):
+            return True
+        scr = T.peel(m["e"])
+        return T.is_call(scr, "next") and bool(m.get("x") or scr.get("x"))
+
     def r1():
         f = F.fn("get_program_callgraph", mod="analysis::callgraph")
-        sy = S.Sym(F)
-        env = {}
-        t = sy.term(f["body"], env)
         site = F.loc(f["body"])
-        fors = [x for x in S.subterms(t) if isinstance(x, tuple) and x and x[0] == "for"]
-        node_loop = [x for x in fors if any(is_call(y, "add_node") for y in S.subterms(x[3]))]
-        ok = len(node_loop) == 1 and is_call(node_loop[0][2], ("keys", "values", "iter")) and any(isinstance(y, tuple) and y and y[0] == "field" and y[2] == "subs" for y in S.subterms(node_loop[0][2])) and not any(is_call(y, ("filter", "take", "skip", "step_by", "filter_map")) for y in S.subterms(node_loop[0][2]))
-        run.check("R1", "nodes|one-per-function", ok, "every function (key of subs) must become a node of the call graph", site)
-        exits = [n for n in T.walk(f["body"]) if n.get("k") in ("Break", "Continue", "Return") and n.get("ds") != "ForLoop"]
-        over = [y[2] for x in fors for y in S.subterms(x[2]) if isinstance(y, tuple) and y and y[0] == "field" and y[2] in ("subs", "blocks", "jmps")]
-        adapt = [y[1] for x in fors for y in S.subterms(x[2]) if is_call(y, ("filter", "take", "skip", "step_by", "filter_map", "rev", "take_while", "skip_while"))]
-        run.check("R1", "edges|all-subs-blocks-jumps", {"subs", "blocks", "jmps"} <= set(over) and not exits and not adapt, "the edge construction must visit every jump of every block of every function (loops over %s, adaptors %s, exits %d)" % (over, adapt, len(exits)), site)
-        adds = T.paths_to(f["body"], lambda x: T.is_call(x, ("add_edge", "update_edge")))
+        roots = B.bodies(F, f)
+        nodes = [x for x in T.walk_fn(F, f) if T.is_call(x, "add_node")]
+        if len(nodes) != 1:
+            run.undecided("R1", "nodes|one-per-function", "expected one add_node site, found %d" % len(nodes), site)
+        else:
+            ctx = iter_contexts(f, nodes[0])
+            fields, adapt = fields_and_adaptors(f, ctx)
+            own = owner_of(f, nodes[0])
+            conds = [cd for n_, cds in T.paths_to(own["body"], lambda y: y is nodes[0]) for cd in cds if not is_desugar_cond(cd)]
+            run.check("R1", "nodes|one-per-function", "subs" in fields and not adapt and not conds, "every function (key of subs) must become a node of the call graph (iterates over fields %s, restricting adaptors %s, %d conditions)" % (sorted(fields & {"subs", "blocks", "jmps"}), adapt, len(conds)), site)
+        adds = [x for x in T.walk_fn(F, f) if T.is_call(x, ("add_edge", "update_edge"))]
         if len(adds) != 1:
             run.violated("R1", "edges|single-construction-site", "expected one edge construction site, found %d" % len(adds), site)
             return
-        n, conds = adds[0]
+        n = adds[0]
+        own = owner_of(f, n)
+        ctx = iter_contexts(f, n)
+        fields, adapt = fields_and_adaptors(f, ctx)
+        # exits from the iteration other than the guard clauses judged below
+        hard_exits = [x for b in [own] for x in T.walk(b["body"]) if x.get("k") in ("Break", "Return") and not x.get("x") and x.get("ds") != "ForLoop"]
+        run.check("R1", "edges|all-subs-blocks-jumps", {"subs", "blocks", "jmps"} <= fields and not adapt and not hard_exits, "the edge construction must visit every jump of every block of every function (iterates over fields %s, restricting adaptors %s, exits %d)" % (sorted(fields & {"subs", "blocks", "jmps"}), adapt, len(hard_exits)), site)
         run.check("R1", "edges|parallel-calls-kept", n["n"] == "add_edge", "two calls from f to g are two calls: edges must be added with add_edge (update_edge merges them)", F.loc(n))
+        # path condition of the construction site
+        target_ids = {b_[0] for b_ in SL.slot_bindings(F, f, "jmp::Jmp", "Call", "target")}
         callpat = member = False
         others = []
+        paths = T.paths_to(own["body"], lambda y: y is n)
+        conds = paths[0][1] if paths else []
         for cd in conds:
+            if is_desugar_cond(cd):
+                continue
+            pat = scrut = None
+            pol = True
             if cd[0] == "if":
-                c = sy.ev(cd[1], env)
-                if c[0] == "let" and cd[2] and c[1].startswith("Call{"):
-                    callpat = T.pat_variant_names(cd[1]["p"]) == {"Call"}
-                elif c[0] == "let" and cd[2] and c[1].startswith("Some") and is_call(S.value(c[2]), "get") and any(isinstance(y, tuple) and y and y[0] == "field" and y[2] == "Call.target" for y in S.subterms(c[2])):
+                c = T.peel(cd[1])
+                if c.get("k") == "Let":
+                    pat, scrut, pol = c["p"], c["e"], cd[2]
+                elif T.is_call(c, "contains_key") and B.mentions(F, c, lambda y: y.get("k") in ("Var", "Upvar") and y.get("id") in target_ids):
+                    if cd[2]:
+                        member = True
+                        continue
+            elif cd[0] == "letelse":
+                pat, scrut, pol = cd[1]["p"], cd[1].get("i"), cd[2]
+            elif cd[0] == "arm":
+                pat, scrut = cd[2]["p"], cd[1]["e"]
+            if pat is not None and scrut is not None and pol:
+                names = T.pat_variant_names(pat)
+                sty = (F.ty(scrut) or "").replace("&", "").strip()
+                if names == {"Call"} and sty.endswith("jmp::Jmp"):
+                    callpat = True
+                    continue
+                restricted = [y["n"] for src, how in B.sources(F, roots, scrut) for y in T.walk(src) if T.is_call(y, ("filter", "and_then", "take_if", "xor", "zip", "and", "then", "then_some", "filter_map"))]
+                if names == {"Some"} and not restricted and any(T.is_call(y, "get") and B.mentions(F, y, lambda z: z.get("k") in ("Var", "Upvar") and z.get("id") in target_ids) for src, how in B.sources(F, roots, scrut) for y in T.walk(src)):
                     member = True
-                else:
-                    others.append(fmt(c)[:80])
-        run.check("R1", "edges|iff-direct-call-to-internal-function", callpat and member and not others, "an edge exists iff the jump is a direct call whose target is a function of the program (self-calls included); extra conditions %s" % others, F.loc(n))
-        a = [sy.ev(x, env) for x in n["a"]]
-        src_ok = any(isinstance(y, tuple) and y and y[0] == "field" and y[2] == "tid" and y[1][0] == "elem" for y in S.subterms(a[1]))
-        tgt_ok = any(isinstance(y, tuple) and y and y[0] == "field" and y[2] == "Call.target" for y in S.subterms(a[2]))
-        w_ok = a[3][0] == "elem" or any(isinstance(y, tuple) and y and y[0] == "elem" for y in S.subterms(a[3]))
-        run.check("R1", "edges|from-caller-to-callee", src_ok and tgt_ok and w_ok, "the edge must lead from the calling function's node to the callee's node and carry the call; found (%s -> %s)" % (fmt(a[1])[:60], fmt(a[2])[:60]), F.loc(n))
+                    continue
+            others.append(T.show(cd[1] if cd[0] != "arm" else cd[1]["e"], F)[:80])
+        run.check("R1", "edges|iff-direct-call-to-internal-function", callpat and member and not others, "an edge exists iff the jump is a direct call whose target is a function of the program (self-calls included); direct-call test %s, target-is-function test %s, extra conditions %s" % (callpat, member, others), F.loc(n))
+        a = n["a"]
+        src_ok = any(x.get("k") == "Field" and x.get("fn") == "tid" for src, how in B.sources(F, roots, a[1]) for x in B.walk_with_closures(F, src)) and not any(x.get("k") in ("Var", "Upvar") and x.get("id") in target_ids for x in T.walk(a[1]))
+        tgt_ok = any(x.get("k") in ("Var", "Upvar") and x.get("id") in target_ids for src, how in B.sources(F, roots, a[2]) for x in B.walk_with_closures(F, src))
+        w_ok = "Term" in (F.ty(a[3]) or "") and "Jmp" in (F.ty(a[3]) or "")
+        run.check("R1", "edges|from-caller-to-callee", src_ok and tgt_ok and w_ok, "the edge must lead from the calling function's node to the callee's node and carry the call; found (%s -> %s)" % (T.show(a[1], F)[:60], T.show(a[2], F)[:60]), F.loc(n))
 
     run.guarded("R1", r1)
 
-    def traversals(f):
-        """[(start term, visited-set name, dir of neighbors, dir of edges, guarded?, edge-set name)] in source order"""
-        sy = S.Sym(F)
-        env = {}
-        sy.term(f["body"], env)
+    # ------------------------------------------------------------------ traversal instances
+    def worklist_loops(fn):
         out = []
-        loops = [n for n in T.walk(f["body"]) if n.get("k") == "Loop"]
-        for lp in loops:
-            nb = [c for c in T.calls(lp, name="neighbors_directed")] + [c for c in T.calls(lp, name="neighbors")]
-            ed = [c for c in T.calls(lp, name="edges_directed")] + [c for c in T.calls(lp, name="edges")]
-            if not nb and not ed:
-                continue
-
-            def dir_of(c):
-                if c["n"] in ("neighbors", "edges"):
-                    return "Outgoing"
-                d = T.peel(c["a"][2])
-                return d.get("v") if d.get("k") == "Adt" else None
-            # the popped stack and its initialisation
-            pops = [c for c in T.calls(lp, name="pop")]
-            stack_id = T.root_var_id(pops[0]["a"][0]) if pops else None
-            start = None
-            for n in T.walk(f["body"]):
-                if n.get("k") == "LetStmt" and "i" in n and T.pat_peel(n["p"]).get("k") == "Bind" and T.pat_peel(n["p"])["id"] == stack_id:
-                    start = sy.ev(n["i"], env)
-            # guard: insert into visited as the condition of expansion
-            guarded = False
-            visited = None
-            for x, conds in T.paths_to(lp, lambda y: T.is_call(y, "push")):
-                for cd in conds:
-                    if cd[0] == "if":
-                        lits = []
-
-                        def flat(c, pol):
-                            if c[0] == "and" and pol:
-                                flat(c[1], True); flat(c[2], True)
-                            elif c[0] == "or" and not pol:
-                                flat(c[1], False); flat(c[2], False)
-                            elif c[0] == "not":
-                                flat(c[1], not pol)
-                            else:
-                                lits.append((c, pol))
-                        flat(sy.ev(cd[1], env), cd[2])
-                        for c, pol in lits:
-                            if is_call(c, "insert") and pol:
-                                guarded = True
-                                visited = fmt(c[2][0])
-                            if is_call(c, "contains") and not pol and visited is None:
-                                guarded = True
-                                visited = fmt(c[2][0])
-            esets = [T.show(c["a"][0]).replace("&mut ", "") for c in T.calls(lp, name="insert") if any(T.is_call(y, "id") for y in T.walk(c))]
-            out.append({"start": start, "nb": [dir_of(c) for c in nb], "ed": [dir_of(c) for c in ed], "guarded": guarded, "visited": visited, "eset": esets[0] if esets else None, "loop": lp})
+        for lp in [n for n in T.walk(fn["body"]) if n.get("k") == "Loop"]:
+            if T.calls(lp, name="pop") and (T.calls(lp, name="neighbors_directed") or T.calls(lp, name="edges_directed") or T.calls(lp, name="neighbors") or T.calls(lp, name="edges")):
+                # innermost only
+                if not any(x is not lp and x.get("k") == "Loop" and T.calls(x, name="pop") for x in T.walk(lp)):
+                    out.append(lp)
         return out
 
-    def analyse():
-        """evidence analysis: which endpoint facts are known for the edges in each edge set"""
-        f = F.fn("find_call_sequences_from_node_to_target", mod="analysis::callgraph")
-        tr = traversals(f)
+    def instances(f):
+        """[{fn, loop, env, start_arg(caller-side node or None), eset_name}]"""
+        out = []
+        for lp in worklist_loops(f):
+            out.append({"fn": f, "loop": lp, "env": {}, "argmap": {}, "result_var": None, "call": None})
+        spec = PE.Spec(F)
+        for x in T.walk(f["body"]):
+            if x.get("k") != "Call":
+                continue
+            g = F.by_path.get(x.get("r") or "") or F.by_path.get(x.get("f") or "")
+            if g is None or g is f or g.get("dk") not in ("Fn", "AssocFn") or len(g["params"]) != len(x.get("a", [])):
+                continue
+            lps = worklist_loops(g)
+            if not lps:
+                continue
+            env, argmap = {}, {}
+            for p_, a_ in zip(g["params"], x["a"]):
+                if p_.get("p") and p_["p"].get("k") == "Bind":
+                    c = spec.cev(a_, {})
+                    if c is not None:
+                        env[p_["p"]["id"]] = c
+                    argmap[p_["p"]["id"]] = a_
+            # the local the helper's result is bound to in f
+            rv = None
+            for s_ in T.walk(f["body"]):
+                if s_.get("k") == "LetStmt" and "i" in s_ and s_["p"].get("k") == "Bind" and any(y is x for y in T.walk(s_["i"])):
+                    rv = s_["p"]["n"]
+            for lp in lps:
+                out.append({"fn": g, "loop": lp, "env": env, "argmap": argmap, "result_var": rv, "call": x})
+        return out
+
+    def analyse_instance(inst, src_id, tgt_id):
+        g, lp, env = inst["fn"], inst["loop"], inst["env"]
+        roots = B.bodies(F, g)
+        spec = PE.Spec(F)
+        nodes = spec.reach(lp, env)
+
+        def const_dir(e):
+            d = T.peel(e)
+            if d.get("k") == "Adt":
+                return d.get("v")
+            c = spec.cev(e, env)
+            return c[1] if c and c[0] == "enum" else None
+
+        def dir_of(c):
+            if c["n"] in ("neighbors", "edges"):
+                return "Outgoing"
+            return const_dir(c["a"][2]) if len(c.get("a", [])) > 2 else None
+        ed_calls = [c for c in nodes if T.is_call(c, ("edges_directed", "edges"))]
+        nb_calls = [c for c in nodes if T.is_call(c, ("neighbors_directed", "neighbors"))]
+        pops = [c for c in nodes if T.is_call(c, "pop")]
+        stack_id = T.root_var_id(pops[0]["a"][0]) if pops else None
+        # what is pushed on the worklist, and in which direction does that follow the graph
+        follow = []
+        for c in nodes:
+            if not (T.is_call(c, ("push", "push_back", "extend")) and c.get("a") and T.root_var_id(c["a"][0]) == stack_id):
+                continue
+            # the pushed expression under env: results() resolves a `match direction {..}`
+            leaves, _ = spec.results(c["a"][1], env) if len(c["a"]) > 1 else ([], [])
+            for leaf in leaves or [c["a"][1]]:
+                lf = T.peel(leaf)
+                got = None
+                if T.is_call(lf, ("target", "source")) and lf.get("a"):
+                    # endpoint of an edge taken from edges_directed(node, D)
+                    for src, how in B.sources(F, roots, lf["a"][0]):
+                        for y in T.walk(src):
+                            if T.is_call(y, ("edges_directed", "edges")):
+                                d = dir_of(y)
+                                if d == "Outgoing":
+                                    got = "Outgoing" if lf["n"] == "target" else "stuck"
+                                elif d == "Incoming":
+                                    got = "Incoming" if lf["n"] == "source" else "stuck"
+                else:
+                    for src, how in B.sources(F, roots, leaf):
+                        for y in T.walk(src):
+                            if T.is_call(y, ("neighbors_directed", "neighbors")):
+                                got = dir_of(y)
+                follow.append(got)
+        # the start node
+        start = None
+        for n_ in T.walk(g["body"]):
+            if n_.get("k") == "LetStmt" and "i" in n_ and T.pat_peel(n_["p"]).get("k") == "Bind" and T.pat_peel(n_["p"])["id"] == stack_id:
+                ids = {y["id"] for y in T.walk(n_["i"]) if y.get("k") in ("Var", "Upvar")}
+                caller_ids = set()
+                for i in ids:
+                    if i in inst["argmap"]:
+                        caller_ids |= {y["id"] for y in T.walk(inst["argmap"][i]) if y.get("k") in ("Var", "Upvar")}
+                    else:
+                        caller_ids.add(i)
+                if src_id in caller_ids and tgt_id not in caller_ids:
+                    start = "source"
+                elif tgt_id in caller_ids and src_id not in caller_ids:
+                    start = "target"
+        # expansion guard: insert into / membership in a visited set
+        guarded, visited = False, None
         sy = S.Sym(F)
-        env = {}
-        sy.term(f["body"], env)
+        senv = {}
+        sy.term(g["body"], senv)
+        extra = []
+        for x, conds in T.paths_to(lp, lambda y: T.is_call(y, ("push", "push_back", "extend")) and y.get("a") and T.root_var_id(y["a"][0]) == stack_id):
+            for cd in conds:
+                if cd[0] == "if":
+                    lits = []
+
+                    def flat(c, pol):
+                        if c[0] == "and" and pol:
+                            flat(c[1], True); flat(c[2], True)
+                        elif c[0] == "or" and not pol:
+                            flat(c[1], False); flat(c[2], False)
+                        elif c[0] == "not":
+                            flat(c[1], not pol)
+                        else:
+                            lits.append((c, pol))
+                    flat(sy.ev(cd[1], senv), cd[2])
+                    for c, pol in lits:
+                        if is_call(c, "insert") and pol:
+                            guarded = True
+                            visited = fmt(c[2][0])
+                        elif is_call(c, "contains") and not pol:
+                            guarded = True
+                            visited = visited or fmt(c[2][0])
+                        elif c[0] == "let" and is_call(c[2], "pop"):
+                            pass
+                        else:
+                            extra.append((c, pol))
+        esets = [c for c in nodes if T.is_call(c, ("insert", "push", "extend")) and c.get("a") and T.root_var_id(c["a"][0]) != stack_id and any(T.is_call(y, "id") for y in T.walk(c))]
+        eset_local = T.show(esets[0]["a"][0], F).replace("&mut ", "").strip() if esets else None
+        eset_id = T.root_var_id(esets[0]["a"][0]) if esets else None
+        eset = eset_local
+        if inst["call"] is not None:
+            # the helper must hand back that set
+            res, _ = spec.results(g["body"], env)
+            returns_set = any(T.root_var_id(r) == eset_id for r in res) if eset_id is not None else False
+            eset = inst["result_var"] if returns_set else None
+        return {"nb": [dir_of(c) for c in nb_calls] + follow, "ed": [dir_of(c) for c in ed_calls], "guarded": guarded,
+                "visited": (visited, id(inst["call"])), "eset": eset, "start": start, "extra": extra, "loop": lp, "follow": follow}
+
+    def analyse():
+        f = F.fn("find_call_sequences_from_node_to_target", mod="analysis::callgraph")
+        ps = [p_["p"]["id"] for p_ in f["params"] if p_.get("p") and p_["p"].get("k") == "Bind"]
+        if len(ps) != 3:
+            raise T.AnchorMissing("find_call_sequences_from_node_to_target: expected (callgraph, source, target) parameters")
+        src_id, tgt_id = ps[1], ps[2]
         info = []
-        for t in tr:
-            st = fmt(t["start"]) if t["start"] else ""
-            start = "source" if ("source_node" in st and "target_node" not in st) else "target" if ("target_node" in st and "source_node" not in st) else None
+        for inst in instances(f):
+            t = analyse_instance(inst, src_id, tgt_id)
             nbd = set(t["nb"])
             cls = None
             if len(nbd) == 1:
                 d = next(iter(nbd))
-                if start == "source" and d == "Outgoing":
+                if t["start"] == "source" and d == "Outgoing":
                     cls = "FWD"
-                elif start == "target" and d == "Incoming":
+                elif t["start"] == "target" and d == "Incoming":
                     cls = "BWD"
-            # extra conditions on the expansion besides the visited-set insert
-            extra = []
-            for x, conds in T.paths_to(t["loop"], lambda y: T.is_call(y, "push")):
-                for cd in conds:
-                    if cd[0] == "if":
-                        c = sy.ev(cd[1], env)
-                        def flat(c, pol, out):
-                            if c[0] == "and" and pol:
-                                flat(c[1], True, out); flat(c[2], True, out)
-                            elif c[0] == "not":
-                                flat(c[1], not pol, out)
-                            else:
-                                out.append((c, pol))
-                        lits = []
-                        flat(c, cd[2], lits)
-                        for l, pol in lits:
-                            if is_call(l, "insert") and pol:
-                                continue
-                            if l[0] == "let" and is_call(l[2], "pop"):
-                                continue
-                            extra.append((l, pol))
             ev = set()
             edirs = set(t["ed"])
             if t["eset"] and len(edirs) == 1 and cls is not None:
@@ -174,35 +341,50 @@ def run(run):
                     ev.add("SRC_FWD")
                 if cls == "BWD" and d == "Incoming":
                     ev.add("TGT_BWD")
-            info.append({"t": t, "class": cls, "start": start, "extra": extra, "evidence": ev})
-        return f, tr, info, sy, env
+            info.append({"t": t, "class": cls, "start": t["start"], "extra": t["extra"], "evidence": ev, "call": inst["call"]})
+        sy = S.Sym(F)
+        env = {}
+        sy.term(f["body"], env)
+        for inf in info:
+            inf["call_term"] = S.value(sy.ev(inf["call"], env)) if inf["call"] is not None else None
+        return f, info, sy, env
 
     def r2():
-        f, tr, info, sy, env = analyse()
+        f, info, sy, env = analyse()
         site = F.loc(f["body"])
-        if not tr:
+        if not info:
             run.undecided("R2", "traversals", "no worklist traversal recognised", site)
             return
-        for i, (t, inf) in enumerate(zip(tr, info)):
+        for i, inf in enumerate(info):
+            t = inf["t"]
             if t["nb"] and t["ed"]:
                 ds = set(t["nb"]) | set(t["ed"])
-                run.check("R2", "traversal%d|one-direction" % i, len(ds) == 1 and None not in ds, "a traversal follows neighbours in direction %s but collects edges in direction %s (contradiction)" % (t["nb"], t["ed"]), F.loc(t["loop"]))
+                if None in ds:
+                    run.undecided("R2", "traversal%d|one-direction" % i, "direction of a neighbour/edge enumeration is not a constant: %s / %s" % (t["nb"], t["ed"]), F.loc(t["loop"]))
+                else:
+                    run.check("R2", "traversal%d|one-direction" % i, len(ds) == 1, "a traversal follows neighbours in direction %s but collects edges in direction %s (contradiction)" % (t["nb"], t["ed"]), F.loc(t["loop"]))
             run.check("R2", "traversal%d|expand-on-first-visit" % i, t["guarded"], "a node must be expanded only when it is newly inserted into the visited set (termination on cycles, and every reachable node expanded once)", F.loc(t["loop"]))
             if inf["class"] is None:
-                run.violated("R2", "traversal%d|start-and-direction" % i, "a traversal starting at the %s node and following %s neighbours computes neither the nodes reachable from the source nor the nodes that reach the target" % (inf["start"], t["nb"]), F.loc(t["loop"]))
+                if None in t["nb"] or t["start"] is None or not t["nb"]:
+                    run.undecided("R2", "traversal%d|start-and-direction" % i, "start node %s / followed direction %s not recognised" % (t["start"], t["nb"]), F.loc(t["loop"]))
+                else:
+                    run.violated("R2", "traversal%d|start-and-direction" % i, "a traversal starting at the %s node and following %s neighbours computes neither the nodes reachable from the source nor the nodes that reach the target" % (inf["start"], t["nb"]), F.loc(t["loop"]))
             else:
                 run.holds("R2", "traversal%d|start-and-direction" % i, "%s" % inf["class"], F.loc(t["loop"]))
             if inf["extra"]:
                 run.undecided("R2", "traversal%d|complete" % i, "the expansion is restricted by extra conditions %s: completeness of the traversal is not decided" % [fmt(c)[:60] for c, _ in inf["extra"]], F.loc(t["loop"]))
         classes = [inf["class"] for inf in info]
-        run.check("R2", "both-directions-present", "FWD" in classes and "BWD" in classes, "a forward traversal from the source and a backward traversal from the target are both needed; found %s" % classes, site)
-        vs = [t["visited"] for t in tr]
-        run.check("R2", "separate-visited-sets", len(set(vs)) == len(vs) and None not in vs, "every traversal needs its own visited set; found %s" % vs, site)
+        if None in classes and not ("FWD" in classes and "BWD" in classes):
+            pass  # reported per traversal above
+        else:
+            run.check("R2", "both-directions-present", "FWD" in classes and "BWD" in classes, "a forward traversal from the source and a backward traversal from the target are both needed; found %s" % classes, site)
+        vs = [inf["t"]["visited"] for inf in info]
+        run.check("R2", "separate-visited-sets", len(set(vs)) == len(vs) and all(v[0] is not None for v in vs), "every traversal needs its own visited set; found %s" % [v[0] for v in vs], site)
 
     run.guarded("R2", r2)
 
     def r3():
-        f, tr, info, sy, env = analyse()
+        f, info, sy, env = analyse()
         t = sy.term(f["body"], {})
         res = S.value(t)
         site = F.loc(f["body"])
@@ -218,6 +400,9 @@ def run(run):
                 if x[1] in ev_of:
                     return set(ev_of[x[1]])
                 raise Unknown("set %s" % x[1])
+            for inf in info:
+                if inf.get("call_term") is not None and inf["call_term"] == x and inf["t"]["eset"]:
+                    return set(inf["evidence"])
             if is_call(x, ("iter", "into_iter", "cloned", "copied", "collect", "map")):
                 return evidence(x[2][0])
             if is_call(x, "intersection") and len(x[2]) == 2:
@@ -242,6 +427,8 @@ def run(run):
                         return base
                 elif is_call(ct, "contains") or ct[0] in ("not", "and"):
                     cond = (ct, True)
+                elif is_call(ct, "then") and len(ct[2]) == 2:
+                    cond = (ct[2][0], True)
                 if cond is None:
                     raise Unknown("filter closure %s" % fmt(ct)[:80])
                 c0, pol = cond
@@ -287,20 +474,36 @@ def run(run):
             need = {"SRC_FWD", "TGT_BWD"}
             missing = need - ev
             names = {"SRC_FWD": "its caller is reachable from the source function", "TGT_BWD": "its callee reaches the target function"}
-            run.check("R3", "result|edges-on-source-to-target-paths", not missing, "a call lies on a source-to-target path iff its caller is reachable from the source AND its callee reaches the target; for the returned calls nothing establishes that %s" % " and that ".join(names[m] for m in sorted(missing)), site)
+            undecided_traversal = any(inf["class"] is None and (None in inf["t"]["nb"] or inf["t"]["start"] is None) for inf in info)
+            if missing and undecided_traversal:
+                run.undecided("R3", "result|edges-on-source-to-target-paths", "a traversal was not recognised; evidence %s" % sorted(ev), site)
+            else:
+                run.check("R3", "result|edges-on-source-to-target-paths", not missing, "a call lies on a source-to-target path iff its caller is reachable from the source AND its callee reaches the target; for the returned calls nothing establishes that %s" % " and that ".join(names[m] for m in sorted(missing)), site)
         except Unknown as e:
             run.undecided("R3", "result|edges-on-source-to-target-paths", "result expression outside the vocabulary: %s" % e, site)
-        tid = any(isinstance(z, tuple) and z and z[0] == "field" and z[2] == "tid" for c in F.closures(f) for z in S.subterms(S.Sym(F).term(c["body"]))) and "Tid" in F.tyi(f["ret"])
+        tid = any(x.get("k") == "Field" and x.get("fn") == "tid" for x in T.walk_fn(F, f)) and "Tid" in F.tyi(f["ret"])
         run.check("R3", "mapped-to-call-tid", tid, "each kept edge must be reported as the tid of the call it stands for (edge weight .tid)", site)
+        # the public entry point hands over the nodes of the source and of the target function, in that order
         f2 = F.fn("find_call_sequences_to_target", mod="analysis::callgraph")
-        t2 = S.Sym(F).term(f2["body"])
-        cs = [y for y in S.subterms(t2) if is_call(y, "find_call_sequences_from_node_to_target")]
-        ok = False
-        if cs:
-            a = cs[0][2]
-            src_cl = [z for z in S.subterms(a[1]) if isinstance(z, tuple) and z and z[0] == "closure"]
-            tgt_cl = [z for z in S.subterms(a[2]) if isinstance(z, tuple) and z and z[0] == "closure"]
-            ok = bool(src_cl) and bool(tgt_cl) and any(u[0] == "var" and u[1] == "source_sub_tid" for u in src_cl[0][2]) and any(u[0] == "var" and u[1] == "target_sub_tid" for u in tgt_cl[0][2])
-        run.check("R3", "entry|source-and-target-not-swapped", ok, "the public query must pass the node of the SOURCE function as source and the node of the TARGET function as target", F.loc(f2["body"]))
+        ps2 = [p_["p"]["id"] for p_ in f2["params"] if p_.get("p") and p_["p"].get("k") == "Bind"]
+        cs = [y for y in T.walk_fn(F, f2) if T.is_call(y, "find_call_sequences_from_node_to_target")]
+        if len(cs) != 1 or len(ps2) != 3:
+            run.undecided("R3", "entry|source-and-target-not-swapped", "call of find_call_sequences_from_node_to_target not found", F.loc(f2["body"]))
+        else:
+            roots2 = B.bodies(F, f2)
+
+            def reaches(e):
+                got = set()
+                for src, how in B.sources(F, roots2, e):
+                    for x in B.walk_with_closures(F, src):
+                        if x.get("k") in ("Var", "Upvar") and x.get("id") in (ps2[1], ps2[2]):
+                            got.add(x["id"])
+                return got
+            a = cs[0]["a"]
+            r1_, r2_ = reaches(a[1]), reaches(a[2])
+            if not r1_ or not r2_:
+                run.undecided("R3", "entry|source-and-target-not-swapped", "origin of the node arguments not recognised", F.loc(f2["body"]))
+            else:
+                run.check("R3", "entry|source-and-target-not-swapped", r1_ == {ps2[1]} and r2_ == {ps2[2]}, "the public query must pass the node of the SOURCE function as source and the node of the TARGET function as target", F.loc(f2["body"]))
 
     run.guarded("R3", r3)
